@@ -541,11 +541,12 @@ fn differential(cases: &[Case], ctxs_per_case: &[Vec<Ctx>], threads: usize, hist
 
 /// one case, one side, in a child: "done" | "timeout" | "crash: …"
 fn side_outcome(case: &Case, ctxs: &[Ctx], side: &str) -> String {
+    // on its own and with a generous limit: a busy machine must not look like a hang
     let b = Batch {
-        common: serde_json::json!({"templates": case.templates(), "side": side}),
+        common: serde_json::json!({"templates": case.templates(), "side": side, "limit_secs": 25}),
         items: vec![item_json(case, &case.modes(), ctxs)],
     };
-    let r = run_batch(CHILD_FLAG, 900_000 + case.id, &b, std::time::Duration::from_secs(30), 0);
+    let r = run_batch(CHILD_FLAG, 900_000 + case.id, &b, std::time::Duration::from_secs(60), 0);
     match r.culprits.first() {
         Some((_, reason)) => reason.clone(),
         None => "done".into(),
@@ -723,7 +724,7 @@ fn main() {
     let exe = driver::driver_path(&env.verif_dir, "drv_c09");
 
     // ---- generate
-    let cases = generate_cases(&mut rng, env.budget(24, 300), env.budget(6000, 100_000));
+    let cases = generate_cases(&mut rng, env.budget(24, 120), env.budget(6000, 50_000));
     let mut all_templates: Vec<(String, String)> = Vec::new();
     for c in &cases {
         all_templates.extend(c.templates());
@@ -744,6 +745,24 @@ fn main() {
                     Ok(_) => kept.push(c),
                     Err(e) => {
                         report.count("case.rejected_at_registration");
+                        // refused (or panicking) only because of the pass: a difference in behaviour
+                        if build(&c.templates(), true).is_ok() {
+                            report.oracle_checks += 1;
+                            report.oracle_failures += 1;
+                            if report.violations.iter().filter(|v| v.summary.starts_with("registration")).count() < 2 {
+                                report.violation(
+                                    "property",
+                                    format!(
+                                        "registration of `{}` fails with the optimisation pass ({}) and succeeds without it",
+                                        c.templates().last().map(|t| t.1.clone()).unwrap_or_default(),
+                                        e.lines().next().unwrap_or("").chars().take(160).collect::<String>()
+                                    ),
+                                    serde_json::json!({"templates": c.templates(), "render": c.name(), "mode": "render", "context": ctx_json(&[0, 0, 0]),
+                                        "pass_on": format!("registration: {}", e.lines().next().unwrap_or("")), "pass_off": "registration ok",
+                                        "rerun": "harness/target/release/c09 --replay <this file>"}),
+                                );
+                            }
+                        }
                         let first = e.lines().next().unwrap_or("").chars().take(60).collect::<String>();
                         report.count(&format!("rejected.{first}"));
                         if report.notes.len() < 6 {
@@ -898,84 +917,103 @@ fn main() {
         );
     }
 
-    // ---- synthetic windows through the real Chunk::optimize
-    let mut windows: Vec<Vec<String>> = Vec::new();
+    // ---- synthetic windows through the real Chunk::optimize (in rounds, to bound memory)
     let max_exh = env.budget(4, 5);
-    for len in 0..=max_exh {
-        let alpha = syn_alphabet(len, false);
-        let mut choice = vec![0usize; len];
-        loop {
-            windows.push(syn_window(&choice, &alpha));
-            let mut k = 0;
-            while k < len {
-                choice[k] += 1;
-                if choice[k] < alpha.len() {
-                    break;
-                }
-                choice[k] = 0;
-                k += 1;
-            }
-            if k == len {
-                break;
-            }
-        }
-    }
-    let n_exhaustive = windows.len();
-    for _ in 0..env.budget(120_000, 3_000_000) {
-        let len = 1 + rng.below(9);
-        let alpha = syn_alphabet(len, true);
-        // bias towards paths
-        let choice: Vec<usize> = (0..len).map(|_| if rng.chance(1, 2) { rng.below(4) } else { rng.below(alpha.len()) }).collect();
-        windows.push(syn_window(&choice, &alpha));
-    }
-    report.count_n("windows.exhaustive", n_exhaustive as u64);
-    report.count_n("windows.random", (windows.len() - n_exhaustive) as u64);
-    let real_w: Vec<String> = {
-        let chunk = windows.len().div_ceil(threads).max(1);
-        std::thread::scope(|s| {
-            let hs: Vec<_> = windows.chunks(chunk).map(|ws| s.spawn(move || ws.iter().map(|w| real_optimize(w)).collect::<Vec<_>>())).collect();
-            hs.into_iter().flat_map(|h| h.join().unwrap()).collect()
-        })
-    };
-    let wreqs: Vec<String> = windows.iter().map(|w| format!("opt {}", w.join(" "))).collect();
-    let model_w = driver::run_batch_parallel(&exe, &wreqs, threads).unwrap_or_default();
-    let mut window_mismatch: Vec<usize> = Vec::new();
-    let mut window_distinct: HashSet<&String> = HashSet::new();
-    for (i, w) in windows.iter().enumerate() {
-        report.evaluations += 1;
-        let class = real_w[i].split(' ').next().unwrap_or("");
-        report.count(&format!("window.real.{class}"));
-        if real_w[i] != format!("ok {}", w.join(" ")) && window_distinct.insert(&wreqs[i]) {
-            // the pass changed something (or panicked): a non-trivial window
-            report.distinct_nontrivial += 1;
-        }
-        if !model_w.is_empty() {
-            report.model_comparisons += 1;
-            if model_w[i] != real_w[i] {
-                report.model_disagreements += 1;
-                window_mismatch.push(i);
-            }
-        }
-        if let Some(rest) = real_w[i].strip_prefix("ok") {
-            let stored: Vec<String> = rest.split_whitespace().map(|s| s.to_string()).collect();
-            // windows may contain pre-fused instructions and dangling jumps: the structural
-            // oracle is stated for compiler output, so only apply it when all operands are in range
-            let in_range = w.iter().all(|t| {
-                let (k, a, _) = split_tok(t);
-                !is_jump(k) || a.parse::<usize>().map(|x| x <= w.len()).unwrap_or(false)
-            });
-            if in_range {
-                report.oracle_checks += 1;
-                if let Some(d) = structural_oracle(w, &stored) {
-                    report.oracle_failures += 1;
-                    if report.violations.len() < 5 {
-                        report.violation(
-                            "property",
-                            format!("Chunk::optimize breaks the structural clause on a synthetic instruction window: {d}"),
-                            serde_json::json!({"window": w, "real": real_w[i], "detail": {"oracle": d}, "rerun": "harness/target/release/c09 --replay <this file>"}),
-                        );
+    let mut window_mismatch: Vec<(Vec<String>, String, String)> = Vec::new();
+    let mut window_samples: Vec<serde_json::Value> = Vec::new();
+    let mut window_distinct: HashSet<u64> = HashSet::new();
+    let rounds = env.budget(1, 12);
+    let per_round = env.budget(120_000, 3_000_000) / rounds;
+    for round in 0..rounds {
+        let mut windows: Vec<Vec<String>> = Vec::new();
+        if round == 0 {
+            for len in 0..=max_exh {
+                let alpha = syn_alphabet(len, false);
+                let mut choice = vec![0usize; len];
+                loop {
+                    windows.push(syn_window(&choice, &alpha));
+                    let mut k = 0;
+                    while k < len {
+                        choice[k] += 1;
+                        if choice[k] < alpha.len() {
+                            break;
+                        }
+                        choice[k] = 0;
+                        k += 1;
+                    }
+                    if k == len {
+                        break;
                     }
                 }
+            }
+            report.count_n("windows.exhaustive", windows.len() as u64);
+        }
+        let n_before = windows.len();
+        for _ in 0..per_round {
+            let len = 1 + rng.below(9);
+            let alpha = syn_alphabet(len, true);
+            // bias towards paths
+            let choice: Vec<usize> = (0..len).map(|_| if rng.chance(1, 2) { rng.below(4) } else { rng.below(alpha.len()) }).collect();
+            windows.push(syn_window(&choice, &alpha));
+        }
+        report.count_n("windows.random", (windows.len() - n_before) as u64);
+        let real_w: Vec<String> = {
+            let chunk = windows.len().div_ceil(threads).max(1);
+            std::thread::scope(|s| {
+                let hs: Vec<_> = windows.chunks(chunk).map(|ws| s.spawn(move || ws.iter().map(|w| real_optimize(w)).collect::<Vec<_>>())).collect();
+                hs.into_iter().flat_map(|h| h.join().unwrap()).collect()
+            })
+        };
+        let wreqs: Vec<String> = windows.iter().map(|w| format!("opt {}", w.join(" "))).collect();
+        let model_w = driver::run_batch_parallel(&exe, &wreqs, threads).unwrap_or_default();
+        for (i, w) in windows.iter().enumerate() {
+            report.evaluations += 1;
+            let class = real_w[i].split(' ').next().unwrap_or("");
+            report.count(&format!("window.real.{class}"));
+            if real_w[i] != format!("ok {}", w.join(" ")) {
+                use std::hash::{Hash, Hasher};
+                let mut h = std::collections::hash_map::DefaultHasher::new();
+                wreqs[i].hash(&mut h);
+                if window_distinct.insert(h.finish()) {
+                    // the pass changed something (or panicked): a non-trivial window
+                    report.distinct_nontrivial += 1;
+                }
+            }
+            if !model_w.is_empty() {
+                report.model_comparisons += 1;
+                if model_w[i] != real_w[i] {
+                    report.model_disagreements += 1;
+                    if window_mismatch.len() < 5 {
+                        window_mismatch.push((w.clone(), real_w[i].clone(), model_w[i].clone()));
+                    }
+                }
+            }
+            if let Some(rest) = real_w[i].strip_prefix("ok") {
+                let stored: Vec<String> = rest.split_whitespace().map(|s| s.to_string()).collect();
+                // windows may contain pre-fused instructions and dangling jumps: the structural
+                // oracle is stated for compiler output, so only apply it when all operands are in range
+                let in_range = w.iter().all(|t| {
+                    let (k, a, _) = split_tok(t);
+                    !is_jump(k) || a.parse::<usize>().map(|x| x <= w.len()).unwrap_or(false)
+                });
+                if in_range {
+                    report.oracle_checks += 1;
+                    if let Some(d) = structural_oracle(w, &stored) {
+                        report.oracle_failures += 1;
+                        if report.violations.len() < 5 {
+                            report.violation(
+                                "property",
+                                format!("Chunk::optimize breaks the structural clause on a synthetic instruction window: {d}"),
+                                serde_json::json!({"window": w, "real": real_w[i], "detail": {"oracle": d}, "rerun": "harness/target/release/c09 --replay <this file>"}),
+                            );
+                        }
+                    }
+                }
+            }
+        }
+        if round == 0 {
+            for i in [n_before / 2, windows.len() - 1] {
+                window_samples.push(serde_json::json!({"window": windows[i].join(" "), "real": real_w[i], "model": model_w.get(i)}));
             }
         }
     }
@@ -1012,7 +1050,7 @@ fn main() {
             report.violation(
                 "property",
                 format!(
-                    "rendering `{}` with the pass: {on_r}; without the pass: {off_r} (limit 3 s per case, 3 GiB)",
+                    "rendering `{}` with the pass: {on_r}; without the pass: {off_r} (limit 25 s per case on its own, 3 GiB)",
                     case.templates().last().map(|t| t.1.clone()).unwrap_or_default()
                 ),
                 serde_json::json!({"templates": case.templates(), "render": case.name(), "mode": "render",
@@ -1095,11 +1133,11 @@ fn main() {
                         "detail": {"stage": "optimize-listing", "chunk": o.chunk}, "rerun": "harness/target/release/c09 --replay <this file>"}),
                 );
             }
-            for i in window_mismatch.iter().take(3) {
+            for (w, real, model) in window_mismatch.iter().take(3) {
                 report.violation(
                     "model-mismatch",
-                    format!("model optimize differs from Chunk::optimize on a synthetic window: real `{}` model `{}`", real_w[*i], model_w[*i]),
-                    serde_json::json!({"window": windows[*i], "real": real_w[*i], "model": model_w[*i],
+                    format!("model optimize differs from Chunk::optimize on a synthetic window: real `{real}` model `{model}`"),
+                    serde_json::json!({"window": w, "real": real, "model": model,
                         "detail": {"stage": "optimize-synthetic-window"}, "rerun": "harness/target/release/c09 --replay <this file>"}),
                 );
             }
@@ -1113,8 +1151,8 @@ fn main() {
             report.sample(serde_json::json!({"template": case.templates().last(), "chunk": o.chunk, "raw": o.raw.join(" "), "stored": o.stored.join(" "), "model": model.get(i)}));
         }
     }
-    for i in [n_exhaustive / 2, windows.len() - 1] {
-        report.sample(serde_json::json!({"window": windows[i].join(" "), "real": real_w[i], "model": model_w.get(i)}));
+    for x in &window_samples {
+        report.sample(x.clone());
     }
     for x in render_samples.iter().take(3) {
         report.sample(x.clone());
